@@ -11,9 +11,18 @@ def units(ctx):
         SeqUnit("workerpool", "WorkerPool", name="WorkerPool:two-held-submits", lts_kind="lts2", do_mc=False, do_trace=False,
                 walks=(40, 20), thorough_walks=(400, 30)),
         SeqUnit("workerpool", "PoolGroup", traces=(40, 40), thorough_traces=(300, 60), walks=(60, 25), thorough_walks=(500, 40)),
+        # implementation-level model of the whole pool (submitters, dispatcher, workers, controller script), all interleavings
+        McUnit("workerpool", "WorkerPoolImpl", "code", name="WorkerPoolImpl:1w"),
+        McUnit("workerpool", "WorkerPoolImpl", "code2", name="WorkerPoolImpl:2w-cancel"),
+        McUnit("workerpool", "WorkerPoolImpl", "restart", name="WorkerPoolImpl:restart"),
+        # negative controls: the three defects the code had and the seeded change C16-shutdown-cas, as model variants
+        McUnit("workerpool", "WorkerPoolImpl", "v_mutex", name="ctl-running-under-mutex", expect="ShutdownTerminates"),
+        McUnit("workerpool", "WorkerPoolImpl", "v_unguarded", name="ctl-submit-unguarded", expect="Conservation"),
+        McUnit("workerpool", "WorkerPoolImpl", "v_signal", name="ctl-signal-without-lock", expect="ShutdownTerminates"),
+        McUnit("workerpool", "WorkerPoolImpl", "v_flagfirst", name="ctl-shutdown-flag-first", expect="Conservation"),
         # the dispatcher's shutdown wake-up at lock level (all interleavings) + the model of the defect the code had
         McUnit("workerpool", "DispatcherWakeImpl", "", name="DispatcherWakeImpl"),
-        McUnit("workerpool", "DispatcherWakeImpl", "nolock", name="ctl-signal-without-lock", expect="DispatcherExits"),
+        McUnit("workerpool", "DispatcherWakeImpl", "nolock", name="ctl-wake-signal-without-lock", expect="DispatcherExits"),
         # forced schedule of that counterexample (verif yield point in Stack.PopOrWait) + free-running submitters / nested submits / Shutdown, conservation validated by TLC on every recorded execution
         TraceUnit("workerpool", "PoolRun", "poolstress", args=["-traces", 40], thorough_args=["-traces", 400]),
     ]
